@@ -143,6 +143,10 @@ def check(ctx: Ctx) -> None:
         from .C09 import check_primary_loop
         check_primary_loop(repo, ob)
 
+    # an idle primary thread must be woken by trigger_shutdown, whatever else is still running in the pool
+    from .C09 import check_shutdown_wakeup
+    check_shutdown_wakeup(ctx, "C11.i")
+
     with ctx.obligation("C11.d", "threads-daemonic") as ob:
         st = repo.func(f"{GB}.ThreadExecModel.start")
         cs = [unparse(c.func) for c in repo.calls_in(st)]
